@@ -17,7 +17,7 @@ if [ "$tier" != thorough ]; then
   exec /verif/bin/gocv check -prop "$1" -tier "$tier"
 fi
 /verif/bin/gocv check -prop "$1" -tier thorough; rc=$?
-# conformance suite of the verifier itself (74 small functions, one language feature each; see selftest/engine)
+# conformance suite of the verifier itself (81 small functions, one language or contract feature each; see selftest/engine)
 eng=$(/verif/bin/gocv selftest 2>&1 | grep -E "^MISMATCH|^selftest:" | sed 's/^/engine-selftest: /')
 echo "$eng"
 if ls -d /verif/seeded/$1-*/ >/dev/null 2>&1; then
